@@ -44,6 +44,7 @@ type simAtomix struct {
 	// before it is executed (World.StepInterleaved holds a reconcile call there)
 	writeGate func()
 	conflicts int // writes refused because of a version precondition
+	inCommit  bool
 
 	lis *bufconn.Listener
 	srv *grpc.Server
@@ -332,7 +333,9 @@ func (s *simAtomix) mapApply(name string, mp *simMap, kind, key string, value []
 	old := mp.entries[key]
 	switch kind {
 	case "insert", "update", "put":
-		s.version++
+		if !s.inCommit {
+			s.version++
+		}
 		mp.entries[key] = &simEntry{value: value, version: s.version}
 		if old == nil {
 			s.publish(name, false, &mapv1.EventsResponse{Event: mapv1.Event{Key: key, Event: &mapv1.Event_Inserted_{Inserted: &mapv1.Event_Inserted{
@@ -352,7 +355,9 @@ func (s *simAtomix) mapApply(name string, mp *simMap, kind, key string, value []
 			return 0, &simEntry{}
 		}
 		delete(mp.entries, key)
-		s.version++ // the removal consumes a log index too
+		if !s.inCommit {
+			s.version++ // the removal consumes a log index too
+		}
 		s.publish(name, false, &mapv1.EventsResponse{Event: mapv1.Event{Key: key, Event: &mapv1.Event_Removed_{Removed: &mapv1.Event_Removed{
 			Value: mapv1.VersionedValue{Value: old.value, Version: old.version}}}}})
 		return 0, old
@@ -501,6 +506,10 @@ func (m *simMapServer) Commit(ctx context.Context, r *mapv1.CommitRequest) (*map
 		return nil, err
 	}
 	resp := &mapv1.CommitResponse{}
+	// one commit is one log entry: everything it writes carries the same version (as on the real runtime)
+	m.s.version++
+	m.s.inCommit = true
+	defer func() { m.s.inCommit = false }()
 	for _, op := range r.Operations {
 		switch o := op.Operation.(type) {
 		case *mapv1.CommitRequest_Operation_Put:
